@@ -91,6 +91,7 @@ func (t WebsocketTransport) startReader() {
 		for {
 			_, reader, err := t.wsConn.Reader(t.closeCtx)
 			if err != nil {
+				t.readerEnded()
 				return
 			}
 			// A message can span several frames: read it to the end before asking for
@@ -112,11 +113,21 @@ func (t WebsocketTransport) startReader() {
 					break
 				}
 				if err != nil {
+					t.readerEnded()
 					return
 				}
 			}
 		}
 	}()
+}
+
+// readerEnded tells Read that nothing more will come from the websocket (connection lost, message over the read
+// limit): an empty chunk, queued behind everything that was received - unless the transport is being closed anyway.
+func (t WebsocketTransport) readerEnded() {
+	select {
+	case t.queue <- nil:
+	case <-t.closeCtx.Done():
+	}
 }
 
 func (t WebsocketTransport) StartTLS() error {
@@ -155,6 +166,10 @@ func (t *WebsocketTransport) Read(p []byte) (int, error) {
 	case <-t.closeCtx.Done():
 		return 0, t.closeCtx.Err()
 	case data := <-t.queue:
+		if data == nil {
+			// The reader goroutine has ended: like a closed TCP connection
+			return 0, io.EOF
+		}
 		if t.logFile != nil && len(data) > 0 {
 			_, _ = fmt.Fprintf(t.logFile, "RECV:\n%s\n\n", data)
 		}
